@@ -46,6 +46,41 @@ def check(run, prog, tier):
     from . import c15
     from ..report import RuleProxy
     c15.rule_E4(RuleProxy(run, "C14-F"), prog)
+    run.rule("C14-G", "the reorganisation energy subtracted from a state of the band is that of the molecule excited in the "
+                      "state (states are vibronic, reorganisation energies belong to sites)", minimum=1)
+    rule_G(run, prog)
+
+
+def rule_G(run, prog):
+    """'With and without vibrational modes': the strong-coupling state subtracts a reorganisation energy per state of
+    the one-exciton band.  The band is counted in vibronic states (self.Nb[1]); the system-bath interaction is indexed
+    by sites.  The index handed to get_reorganization_energy must therefore be obtained from the state through the
+    state -> electronic-state table (self.elinds); the running index of the states is a site index only when every
+    molecule has exactly one state in the band."""
+    rid = "C14-G"
+    f = prog.func("quantarhei.builders.aggregate_base.AggregateBase._get_DensityMatrix")
+    prog.consulted.add(f.relpath)
+    calls = [n for n in ast.walk(f.node) if isinstance(n, ast.Call) and isinstance(n.func, ast.Attribute)
+             and n.func.attr == "get_reorganization_energy" and norm(n.func.value) in ("self.sbi", "sbi")]
+    if not calls:
+        raise AnalysisError("_get_DensityMatrix no longer looks up reorganisation energies")
+    from ..loader import parents_map
+    pm = parents_map(f.node)
+    for c in calls:
+        lp = pm.get(c)
+        while lp is not None and not isinstance(lp, ast.For):
+            lp = pm.get(lp)
+        over_states = lp is not None and ("Nb" in norm(lp.iter) or any(
+            isinstance(a, ast.Assign) and isinstance(lp.iter, ast.Call) and lp.iter.args
+            and norm(a.targets[0]) == norm(lp.iter.args[-1]) and "Nb" in norm(a.value) for a in ast.walk(f.node)))
+        arg = c.args[0] if c.args else None
+        through_table = arg is not None and any(isinstance(x, ast.Subscript) and norm(x.value) == "self.elinds" for x in ast.walk(arg))
+        ok = (not over_states) or through_table
+        run.obligation(rid, "AggregateBase._get_DensityMatrix", ok, key="site-of-state:" + norm(c)[:50],
+                       message="the reorganisation energy is looked up with %s inside a loop over the states of a band: that is "
+                               "the running number of a vibronic state, not the index of the molecule excited in it (wrong "
+                               "site, or IndexError, as soon as a molecule has vibrational levels)" % (norm(arg) if arg is not None else None),
+                       loc=f.loc(c), sample={"call": norm(c), "loop": norm(lp.iter) if lp is not None else None})
 
 
 def _defs(func, name, before=None):
